@@ -128,6 +128,15 @@ package lexer
 //@   at call strings.Count#2 assume (result == 0) <==> forall(k, len(longBracket), longBracketIdx, !nlb(old(l.chunk)[k]))
 //@ end
 
+// a first line that starts with '#' (shebang) is skipped up to, NOT including, its line break: the break is left for
+// the whitespace scan, which is what counts the line and restarts the column count
+//@ func (*Lexer).SkipFirstLineComment
+//@   props C04
+//@   ensures[C04,first-line-comment-stops-at-its-line-break] hits("next#0") == 1 && len(l.chunk) > 0 ==> l.chunk[0] == 10 || l.chunk[0] == 13
+//@   ensures[C04,no-line-is-counted-or-skipped-here] l.line == old(l.line) && l.lineStartPos == old(l.lineStartPos)
+//@   loop 0 invariant [C04] l.line == old(l.line) && l.lineStartPos == old(l.lineStartPos) && hits("next#0") == 1
+//@ end
+
 // blanks, line breaks and comments between tokens
 //@ func (*Lexer).skipWhiteSpaces
 //@   props C04
